@@ -70,7 +70,7 @@ def formulas(ctx: Ctx, rule="FORMULA"):
             dims = sorted(ex.by_dim)
             want = {1, 2, 3} - ({1} if role == "radius_from_surface" else set())
             missing = want - set(dims)
-            if missing and fi is not None and not fi.name.startswith("make_"):
+            if missing and fi is not None:
                 # no dimension chain: evaluate the generic expression for every dimension, inlining sibling converters
                 gen = generic_eval(ctx, fi, table, sorted(missing), rule)
                 for d, (e, node) in gen.items():
@@ -101,43 +101,121 @@ def formulas(ctx: Ctx, rule="FORMULA"):
                 else:
                     ctx.violate(rule, site, where, f"{first.show()} differs from sibling {ref[1]}: {ref[0].show()}")
     zero_rule(ctx, variants)
+    arg_rule(ctx, variants)
     return {r: {d: v[0] for d, v in dd.items()} for r, dd in table.items()}
 
 
+def _impl_of(fi):
+    """(function node, argument name, dimension name) of the implementation that takes (x, dim): the converter itself
+    or, for a dimension-generic factory, the nested function it returns"""
+    node = fi.node
+    if fi.name.startswith("make_"):
+        inner = [n for n in node.body if isinstance(n, ast.FunctionDef) and len(n.args.args) >= 2]
+        if len(inner) != 1:
+            return None
+        node = inner[0]
+    ps = [a.arg for a in node.args.args]
+    if len(ps) < 2:
+        return None
+    return node, ps[0], ps[1]
+
+
+def _eval_block(stmts, env, conv, depth=0):
+    """Straight-line partial evaluation of a function body under ``env`` (name -> Expr): assignments extend the
+    environment, if-chains whose test compares a constant-valued name with a literal are decided, the value of the first
+    return reached is the result.  Anything else is NotAlgebraic."""
+    from ..algebra import NotAlgebraic
+
+    for s in stmts:
+        if isinstance(s, ast.Expr) and isinstance(s.value, ast.Constant):
+            continue  # docstring
+        if isinstance(s, ast.Assign) and len(s.targets) == 1 and isinstance(s.targets[0], ast.Name):
+            env[s.targets[0].id] = conv(s.value, env)
+            continue
+        if isinstance(s, ast.If):
+            t = s.test
+            dec = None
+            if isinstance(t, ast.Compare) and len(t.ops) == 1 and isinstance(t.ops[0], (ast.Eq, ast.NotEq)):
+                try:
+                    a, b = conv(t.left, env), conv(t.comparators[0], env)
+                except NotAlgebraic:
+                    a = b = None
+                if a is not None and not a.atoms() and not b.atoms():
+                    dec = (a == b) if isinstance(t.ops[0], ast.Eq) else (a != b)
+            if dec is None and isinstance(t, ast.Compare) and len(t.ops) == 1 and isinstance(t.ops[0], (ast.In, ast.NotIn)) and isinstance(t.comparators[0], (ast.Set, ast.Tuple, ast.List)):
+                try:
+                    a = conv(t.left, env)
+                    members = [conv(e_, env) for e_ in t.comparators[0].elts]
+                    if not a.atoms() and not any(x.atoms() for x in members):
+                        dec = any(a == x for x in members)
+                        if isinstance(t.ops[0], ast.NotIn):
+                            dec = not dec
+                except NotAlgebraic:
+                    pass
+            if dec is None:
+                raise NotAlgebraic(f"undecided test {U(t)[:40]}")
+            r = _eval_block(s.body if dec else s.orelse, env, conv, depth)
+            if r is not None:
+                return r
+            continue
+        if isinstance(s, ast.Return) and s.value is not None:
+            return conv(s.value, env), s.value
+        if isinstance(s, ast.Raise):
+            raise NotAlgebraic("raises")
+        raise NotAlgebraic(type(s).__name__)
+    return None
+
+
 def generic_eval(ctx, fi, table, dims, rule):
-    """single-return converter without a dimension chain: evaluate per dimension with the
-    dimension substituted and calls to sibling converters replaced by their closed form"""
+    """converter (or nested implementation of a dimension-generic factory) without a complete dimension chain: evaluate it
+    per dimension with the dimension substituted, calls to sibling converters replaced by their closed form and calls to
+    other functions of the package evaluated the same way (helper functions such as a unit-sphere-volume table)"""
     from ..algebra import Converter, NotAlgebraic
-    from fractions import Fraction
 
     m = ctx.model
-    rets = [s for s in ast.walk(fi.node) if isinstance(s, ast.Return) and s.value is not None]
     out = {}
-    if len(rets) != 1 or len(fi.params) < 2:
+    impl = _impl_of(fi)
+    if impl is None:
         return out
-    par, dimname = fi.params[0], fi.params[1]
+    node, par, dimname = impl
     for d in dims:
-        def hook(cv, call, name, d=d):
-            short = (name or "").split(".")[-1]
-            mm = ROLE_RE.match(short)
-            if mm and mm.group(1) != mm.group(2) and call.args:
-                role = f"{mm.group(1)}_from_{mm.group(2)}"
-                val = table.get(role, {}).get(d)
-                if val is not None:
-                    return val[0].subst(F.X, cv.conv(call.args[0]))
-            return None
+        def conv(expr, env, d=d, depth=[0]):
+            def hook(cv, call, name):
+                short = (name or "").split(".")[-1]
+                mm = ROLE_RE.match(short)
+                if mm and mm.group(1) != mm.group(2) and call.args:
+                    role = f"{mm.group(1)}_from_{mm.group(2)}"
+                    val = table.get(role, {}).get(d)
+                    if val is not None:
+                        return val[0].subst(F.X, cv.conv(call.args[0]))
+                    return None
+                if name and m.has_func(name) and depth[0] < 3 and not call.keywords:
+                    h = m.func(name)
+                    if isinstance(h.node, ast.FunctionDef) and len(h.node.args.args) == len(call.args):
+                        sub = {a.arg: cv.conv(x) for a, x in zip(h.node.args.args, call.args)}
+                        depth[0] += 1
+                        try:
+                            r = _eval_block(h.node.body, sub, conv)
+                        finally:
+                            depth[0] -= 1
+                        if r is not None:
+                            return r[0]
+                return None
 
-        cv = Converter(resolve_dotted=lambda t: m.resolve(fi.module, t) or t, env={par: Expr.atom(F.X), dimname: Expr.const(d)},
-                       opaque_calls=False, call_hook=hook)
+            return Converter(resolve_dotted=lambda t: m.resolve(fi.module, t) or t, env=dict(env), opaque_calls=False, call_hook=hook).conv(expr)
+
         try:
-            out[d] = (cv.conv(rets[0].value), rets[0].value)
+            r = _eval_block(node.body, {par: Expr.atom(F.X), dimname: Expr.const(d)}, conv)
         except NotAlgebraic:
             continue
+        if r is None:
+            continue
+        out[d] = r
         # ZERO: the property quantifies over arguments >= 0
-        for n in ast.walk(rets[0].value):
+        for n in ast.walk(r[1]):
             if isinstance(n, ast.BinOp) and isinstance(n.op, ast.Div):
                 try:
-                    den = cv.conv(n.right)
+                    den = conv(n.right, {par: Expr.atom(F.X), dimname: Expr.const(d)})
                 except NotAlgebraic:
                     continue
                 if F.X in den.atoms():
@@ -170,6 +248,55 @@ def zero_rule(ctx: Ctx, variants):
             else:
                 n_ok += 1
                 ctx.hold("ZERO", name, fi, "no division by the argument: defined at 0")
+
+
+def arg_rule(ctx: Ctx, variants, rule="ARG"):
+    """The formula is applied to the caller's argument itself: no variant rebinds its argument to a reduced, clipped or
+    re-typed value before the formula (np.max(v, 0) collapses an array along axis 0; np.asarray(r) turns a Python int into
+    a fixed-width integer whose powers overflow silently)."""
+    FLOAT = ("float", "np.float64", "np.double", "numpy.float64", "'float64'", "'f8'", "'d'", "np.float_")
+    for role, vs in variants.items():
+        for name, fi, ex in vs:
+            if fi is None:
+                continue
+            bad = None
+            for fn in ast.walk(fi.node):
+                if not isinstance(fn, ast.FunctionDef) or not fn.args.args:
+                    continue
+                if fn is fi.node and fi.name.startswith("make_"):
+                    continue
+                x = fn.args.args[0].arg
+                for st in ast.walk(fn):
+                    tgt = None
+                    if isinstance(st, ast.Assign):
+                        tgt = [t for t in st.targets if isinstance(t, ast.Name) and t.id == x]
+                    elif isinstance(st, (ast.AugAssign, ast.AnnAssign)) and isinstance(st.target, ast.Name) and st.target.id == x:
+                        tgt = [st.target]
+                    elif isinstance(st, ast.NamedExpr) and st.target.id == x:
+                        tgt = [st.target]
+                    if not tgt:
+                        continue
+                    v = getattr(st, "value", None)
+                    okv = False
+                    if isinstance(v, ast.Call) and v.args and U(v.args[0]) == x:
+                        short = (dotted(v.func) or "").split(".")[-1]
+                        dt = [k for k in v.keywords if k.arg == "dtype"]
+                        if short in ("asarray", "asanyarray", "array", "atleast_1d") and len(v.args) == 1 and dt and U(dt[0].value) in FLOAT:
+                            okv = True
+                        if short == "float" and len(v.args) == 1 and not v.keywords:
+                            okv = True
+                        # element-wise maps that are the identity on the domain (arguments >= 0)
+                        if short in ("maximum", "fmax") and len(v.args) == 2 and U(v.args[1]) in ("0", "0.0") and not v.keywords:
+                            okv = True
+                        if short == "clip" and len(v.args) == 3 and U(v.args[1]) in ("0", "0.0") and U(v.args[2]) == "None":
+                            okv = True
+                        if short in ("abs", "fabs", "absolute") and len(v.args) == 1 and not v.keywords:
+                            okv = True
+                    if not okv and bad is None:
+                        bad = st
+            ctx.decide(bad is None, rule, name, (fi, bad) if bad is not None else fi, "the formula is applied to the argument as passed (element-wise, any numeric type)",
+                       f"`{U(bad)[:80] if bad is not None else ''}` replaces the argument before the formula is applied: the result is no longer the element-wise conversion of what the caller passed "
+                       "(reductions change the values and the shape of array arguments; untyped array coercion turns Python ints into fixed-width integers whose powers overflow)")
 
 
 def identities(ctx: Ctx, table, rule="FORMULA-ID"):
@@ -301,6 +428,7 @@ def check(ctx: Ctx):
     wiring(ctx)
     ctx.expect("FORMULA", 24)
     ctx.expect("ZERO", 8)
+    ctx.expect("ARG", 8)
     ctx.expect("FORMULA-ID", 10)
     ctx.expect("WIRING", 6)
     ctx.exhaustive = True
